@@ -25,7 +25,7 @@ ActiveIns(n) ==
       [] n.kind \in {"elem1", "psum2a"} -> {2}   \* psum2a: sum2 whose FIRST input is used passively
       [] n.kind \in {"sum3", "lradd", "lrmin", "lrmax"} -> {1, 2, 3}
       [] n.kind = "elem1x"      -> {2}       \* (unused) elem0 / elem1: element 0 / 1 of a list output packed from two inputs    \* sample2 / sampleu: sum2 / sumu with a passive second input
-      [] n.kind \in {"sum2", "sumu", "keymix", "lsum", "lsumv"} -> {1, 2}
+      [] n.kind \in {"sum2", "sumu", "keymix", "lsum", "lsumv", "fdiv"} -> {1, 2}
       [] OTHER                  -> {1}
 
 \* activity can change at run time: the node itself makes inputs passive / active again (make_passive / make_active from
@@ -45,7 +45,7 @@ ValidIns(n) ==
       [] n.kind \in {"tog", "ltog"} -> {}    \* unchecked inputs
       [] n.kind \in {"lradd", "lrmin", "lrmax"} -> {}   \* reduce_ over a fixed list: folds whatever is valid
       [] n.kind = "lsumv"       -> {}        \* a list input is valid as soon as one element is
-      [] n.kind \in {"sum2", "sample", "sample2", "psum2a", "keymix", "lsum"} -> {1, 2}
+      [] n.kind \in {"sum2", "sample", "sample2", "psum2a", "keymix", "lsum", "fdiv"} -> {1, 2}
       [] n.kind = "sum3" -> {1, 2, 3}   \* lsum: all-valid list input
       [] OTHER                  -> {1}
 
